@@ -159,7 +159,7 @@ def _zdt_fes_pre(c):
 
 
 contract('ace_time::ZonedDateTime::forEpochSeconds(int, ace_time::TimeZone const&)', props=['C05'],
-         requires=_zdt_fes_pre, ensures=_zdt_fes_post, assigns=lambda c: [(c.args[0], 32)])
+         lang_requires=_zdt_fes_pre, ensures=_zdt_fes_post, assigns=lambda c: [(c.args[0], 32)])
 
 
 def _zdt_tes_post(c):
@@ -218,7 +218,7 @@ def _offset_from_log_nested(c):
 
 
 contract('ace_time::ZonedDateTime::convertToTimeZone(ace_time::TimeZone const&) const', props=['C05'],
-         requires=lambda c: [z3.Or(z3.ULE(c.ex.ptr_to_bv(c.args[0]) + 32, c.ex.ptr_to_bv(c.args[2])), z3.ULE(c.ex.ptr_to_bv(c.args[2]) + 24, c.ex.ptr_to_bv(c.args[0]))),
+         lang_requires=lambda c: [z3.Or(z3.ULE(c.ex.ptr_to_bv(c.args[0]) + 32, c.ex.ptr_to_bv(c.args[2])), z3.ULE(c.ex.ptr_to_bv(c.args[2]) + 24, c.ex.ptr_to_bv(c.args[0]))),
                              z3.Or(z3.ULE(c.ex.ptr_to_bv(c.args[0]) + 32, c.ex.ptr_to_bv(c.args[1])), z3.ULE(c.ex.ptr_to_bv(c.args[1]) + 32, c.ex.ptr_to_bv(c.args[0])))],
          ensures=_zdt_convert_post, assigns=lambda c: [(c.args[0], 32)])
 
